@@ -77,4 +77,24 @@ META = {
           "restart until a processed WRITE g80v1[7]=0 (across reconnects); broadcast from the broadcast_received callback until reported (mandatory: kept until a CONFIRM is sent, then the oracle is silent); need-time/local-control/device-trouble/config-corrupt mirror the mock application."),
     note="Echoes are excluded (C05). The response to a DISABLE_UNSOLICITED that cancels an unsolicited series is judged with that series still outstanding.",
  ),
+ "C07": dict(
+    engine="vh",
+    design_ref="5.7",
+    technique="runtime monitor: exhaustive reference table over the real link Layer (every control byte x address class x role x secondary state) plus session-level silence/addressing rules for foreign-master and broadcast fragments",
+    text=("Fault enumeration. Part A: the real link::layer::Layer is fed every one of 256 control bytes x 7 destination classes x 7 source classes x {master, outstation} x self-address on/off x 3 secondary states x 2 payloads; "
+          "delivered FrameInfo and written reply frames are compared with a table written from the property text (direction, ordinary source, destination in {own, self if enabled, broadcast for outstations}; broadcast accepts only user data and is never answered; "
+          "ACK only for reset-link and in-state confirmed data; link status requests always answered; confirmed data delivered once per FCB toggle), each case followed by a link-status probe; random FCB sequences. "
+          "Part B: application fragments (valid, unknown/response function, bad flags, unknown object, truncated, one byte) from the configured master, a foreign master and the three broadcast addresses in idle / solicited / unsolicited confirm wait with the broadcast and any-master features on and off: nothing may be transmitted after a broadcast or a foreign fragment, nothing from a foreign master may execute."),
+    note="Malformed FCV/FCB combinations: only the safe direction (nothing delivered) is asserted (DESIGN 5.22).",
+ ),
+ "C01": dict(
+    engine="vh",
+    design_ref="5.1",
+    technique="runtime monitor with the compiler's overflow/bounds/unwrap checks as sanitizer: panic hook + liveness probes in virtual time over hostile generated inputs in every session state",
+    text=("Exploration. Checked build (overflow checks, debug assertions). E2: ~10^5 grammar-generated and mutated fragments per run through parse/Display(4 levels)/iteration/extraction and damaged frame/segment streams through the real link+transport readers under catch_unwind. "
+          "E1: hostile raw bytes and framed fragments (maximal-size control requests, foreign and broadcast addresses) injected into live outstation sessions prepared in idle, solicited confirm wait, select pending, deferred read, overflow during confirm wait and unsolicited activity, "
+          "for both link error modes, rx/tx sizes 249..4096 and all 108 decode levels (every tracing event is formatted). After each input: the endpoint must reach quiescence (no spin), not panic, keep its task; Close mode must end the session on a framing error and serve the next one; "
+          "finally a link status request and a READ class 0 must be answered within a bounded virtual time. The master role is added by the master simulator part."),
+    note="A shard that dies abnormally is reported as a violation naming the scenario in progress. Stall bound: 4 confirm timeouts + retry delay + 2 s of virtual time.",
+ ),
 }
